@@ -180,9 +180,12 @@ func init() {
 	lock := func(fr *frame, a []value) value {
 		p := fr.i.p
 		st := p.syncOf(a[0].(*value))
+		p.sched.preempt("before Mutex.Lock")
 		p.sched.block(func() bool { return !st.locked && st.readers == 0 }, "Mutex.Lock")
 		st.locked = true
 		st.owner = p.sched.cur.id
+		p.hbAcquire(st.vc)
+		p.hbAcquire(st.vcR)
 		return nil
 	}
 	unlock := func(fr *frame, a []value) value {
@@ -192,6 +195,8 @@ func init() {
 			p.targetPanic(fr.caller, "fatal error: sync: unlock of unlocked mutex")
 		}
 		st.locked = false
+		p.hbReleaseStore(&st.vc)
+		p.sched.preempt("after Mutex.Unlock")
 		return nil
 	}
 	intrinsics["(*sync.Mutex).Lock"] = lock
@@ -204,6 +209,7 @@ func init() {
 			return false
 		}
 		st.locked = true
+		fr.i.p.hbAcquire(st.vc)
 		return true
 	}
 	intrinsics["(*sync.RWMutex).RLock"] = func(fr *frame, a []value) value {
@@ -211,6 +217,7 @@ func init() {
 		st := p.syncOf(a[0].(*value))
 		p.sched.block(func() bool { return !st.locked }, "RWMutex.RLock")
 		st.readers++
+		p.hbAcquire(st.vc)
 		return nil
 	}
 	intrinsics["(*sync.RWMutex).RUnlock"] = func(fr *frame, a []value) value {
@@ -220,6 +227,7 @@ func init() {
 			p.targetPanic(fr.caller, "fatal error: sync: RUnlock of unlocked RWMutex")
 		}
 		st.readers--
+		p.hbRelease(&st.vcR)
 		return nil
 	}
 	intrinsics["(*sync.WaitGroup).Add"] = func(fr *frame, a []value) value {
@@ -238,12 +246,14 @@ func init() {
 		if st.count < 0 {
 			p.targetPanic(fr.caller, "sync: negative WaitGroup counter")
 		}
+		p.hbRelease(&st.vc)
 		return nil
 	}
 	intrinsics["(*sync.WaitGroup).Wait"] = func(fr *frame, a []value) value {
 		p := fr.i.p
 		st := p.syncOf(a[0].(*value))
 		p.sched.block(func() bool { return st.count == 0 }, "WaitGroup.Wait")
+		p.hbAcquire(st.vc)
 		return nil
 	}
 	intrinsics["(*sync.Once).Do"] = func(fr *frame, a []value) value {
@@ -252,6 +262,9 @@ func init() {
 		if !st.onceDone {
 			st.onceDone = true
 			call(fr.i, fr, 0, a[1], nil)
+			p.hbRelease(&st.vc)
+		} else {
+			p.hbAcquire(st.vc)
 		}
 		return nil
 	}
@@ -377,6 +390,16 @@ func (h *hashObj) write(fr *frame, b value) {
 			h.data = append(h.data, b...)
 		}
 	case *absBytes:
+		if b.mat != nil {
+			// its length has been case-split on this path already: hash the bytes themselves
+			h.write(fr, b.mat)
+			return
+		}
+		if n := fr.i.p.knownByteLen(b.t); n > 0 && n <= 64 {
+			// the bounds known on this path pin the length: no case split is needed
+			h.write(fr, fr.i.p.materialize(fr, b))
+			return
+		}
 		if !h.abs {
 			h.abs = true
 			if len(h.data) > 0 {
